@@ -196,3 +196,40 @@ func VerifC15_recover() {
 	s, err3 := rt.Render()
 	vfAssert(vfAnd(err3 == nil, s == string(clean.got)), "render-returns-what-renderto-writes")
 }
+
+// VerifC15_ragged: a three-column table with a row two cells short and a row without cells: every
+// padding write and the write of an empty record can be the one that fails (once, or from there on).
+func VerifC15_ragged() {
+	t := tabular.New()
+	t.AddHeaders("h", "i", "j")
+	t.AddRowItems("a", "b", "c")
+	t.AddRowItems("r")
+	t.AddRow(tabular.NewRow())
+	t.AddRowItems("s", "t")
+	f := vfChoice("format", 6)
+	clean := &vfFailWriter{k: -1, mode: 1}
+	if vfRenderTo(t, f, clean) != nil {
+		vfFail("fault-free-render-ok")
+		return
+	}
+	W := clean.calls
+	F := clean.got
+	if W == 0 {
+		return
+	}
+	w := &vfFailWriter{k: vfInt("k", 0, 80), mode: vfChoice("mode", 2)}
+	vfAssume(w.k < W)
+	if w.mode == 1 {
+		vfTag("fails-once")
+	}
+	err := vfRenderTo(t, f, w)
+	vfObserveBool("err", err != nil)
+	vfObserveInt("accepted", len(w.got))
+	vfAssert(err != nil, "failure-surfaces-as-error")
+	vfAssert(len(w.got) <= len(F), "accepted-bytes-are-a-prefix")
+	if len(w.got) <= len(F) {
+		for i := range w.got {
+			vfAssert(w.got[i] == F[i], "accepted-bytes-are-a-prefix")
+		}
+	}
+}
